@@ -435,8 +435,9 @@ class Context:
                     else:
                         result = comparator(a, b)
                     # Convert to integer for cmp_to_key
-                    num = to_number(result) if result is not UNDEFINED else 0
-                    return int(num) if isinstance(num, (int, float)) else 0
+                    num = to_number(result)
+                    # Only the sign matters (0.5 is "greater", NaN is "equal")
+                    return -1 if num < 0 else (1 if num > 0 else 0)
                 return default_compare(a, b)
 
             # Sort using Python's sort with custom key
